@@ -155,16 +155,13 @@ SPEC += [
      "fun args => ∀ x y : Num, args = [.num x, .num y] → hugePow x y = false", "NumSem"),
 ]
 
-# ka_log and its dependants (under NumSem; side condition: log(float(base)) is not 0.0 — CPython raises ZeroDivisionError there,
-# the hand-written model reports overflow; Lean's Float.log is opaque, so the condition cannot be discharged for a concrete base)
-LOGZ = "∀ lb, Elementary.pyLog %s = .ok lb → (lb == 0) = false"
-SPEC.append(("log|(Number, Number)|ka.functions.ka_log", ".log2args", "ka_log_agree h _ _ (hP _ _ rfl)",
-             "fun args => ∀ x b : Num, args = [.num x, .num b] → " + LOGZ % "b", "NumSem"))
+# ka_log and its dependants (under NumSem).  No side condition: the `ZeroDivisionError` of `math.log(x, base)` for a base that is
+# 1.0 as a float is a branch of both sides (`PyRt.mathLog2`, `Elementary.kaLog`)
+SPEC.append(("log|(Number, Number)|ka.functions.ka_log", ".log2args", "ka_log_agree h _ _", None, "NumSem"))
 for nm, lb in [("ln", "e"), ("log10", "ten"), ("log2", "two")]:
-    side = "fun _ => " + LOGZ % ("LogBase.%s.num" % lb)
-    SPEC.append(("%s|(Number)|ka.functions.ka_%s" % (nm, nm), ".fn1 .%s" % nm, "ka_%s_agree h _ hP" % nm, side, "NumSem"))
+    SPEC.append(("%s|(Number)|ka.functions.ka_%s" % (nm, nm), ".fn1 .%s" % nm, "ka_%s_agree h _" % nm, None, "NumSem"))
     SPEC.append(("%s|(Quantity)|ka.functions.register_numeric_function.<locals>.quantity_function[ka.functions.ka_%s]" % (nm, nm),
-                 ".qfn .%s" % nm, "quantity_function_agree ka_%s .%s _ _ (ka_%s_agree h _ hP)" % (nm, nm, nm), side, "NumSem"))
+                 ".qfn .%s" % nm, "quantity_function_agree ka_%s .%s _ _ (ka_%s_agree h _)" % (nm, nm, nm), None, "NumSem"))
 
 HOLDS = {".num": ("holds_num", "⟨n%d, rfl⟩"), ".intv": ("holds_intv", "⟨a%d, b%d, rfl⟩"), ".arr": ("holds_arr", "⟨xs%d, rfl⟩"),
          ".qty": ("holds_qty", "⟨m%d, d%d, rfl⟩"), ".int": ("holds_int", "⟨k%d, rfl⟩"), ".any": None}
@@ -297,6 +294,67 @@ if os.path.exists(TAIL):
 L.append("end KaVerif\n")
 open(OUT, "w", encoding="utf-8").write("\n".join(L))
 print("mkbodiesprops: %d theorems -> %s" % (len(names), OUT))
+
+# ---------------------------------------------------------------------------------------------------------------------------
+# Props/BodiesDispatch.lean: ONE LEVEL OF DISPATCH over the translated table = one level over the hand-written table (case analysis
+# over the descriptors of the SPEC above, generated here so that a new descriptor only needs its SPEC row)
+OUT2 = os.path.join(V, "lean", "KaVerif", "Props", "BodiesDispatch.lean")
+byd = {e[0]: e for e in SPEC}
+KARANGE = [e[0] for e in SPEC if e[1] == ".kaRange"][0]
+D = []
+D.append(open(os.path.join(V, "tools", "bodiesdispatch_head.lean"), encoding="utf-8").read().replace("@KARANGE@", KARANGE))
+SPECIAL = {
+    ".range": """  obtain ⟨g, code, sh, va, h1, h2, h3, h4⟩ := %(tn)s
+  have hcode : code = .range := Option.some.inj (h2.symm.trans (by rfl))
+  subst hcode
+  refine ⟨g, _, sh, va, h1, h2, h3, fun rec hD hS args hw href hside => h4 rec hD args hw ?_⟩
+  intro lo hi e
+  subst e
+  exact Bodies.refuses_range href""",
+    ".pow": """  obtain ⟨g, code, sh, va, h1, h2, h3, h4⟩ := %(tn)s
+  have hcode : code = .pow := Option.some.inj (h2.symm.trans (by rfl))
+  subst hcode
+  refine ⟨g, _, sh, va, h1, h2, h3, fun rec hD hS args hw href hside => h4 rec hS args hw ?_⟩
+  intro x y e
+  subst e
+  exact Bodies.refuses_pow href""",
+    ".kaRange": """  obtain ⟨g, code, sh, va, h1, h2, h3, h4⟩ := %(tn)s
+  have hg : g = arity3 (ka_range pyLoopFuel) := Option.some.inj (h1.symm.trans (by rfl))
+  have hcode : code = .kaRange := Option.some.inj (h2.symm.trans (by rfl))
+  subst hg hcode
+  refine ⟨_, _, sh, va, h1, h2, h3, fun rec hD hS args hw href hside => h4 rec hD args hw ?_⟩
+  rw [Bodies.sideB_kaRange] at hside
+  exact Bodies.kaRange_side hside""",
+}
+for (desc, tn) in zip([e[0] for e in SPEC], names):
+    ent = byd[desc]
+    side = ent[3] if len(ent) > 3 else None
+    hyp = ent[4] if len(ent) > 4 else None
+    D.append("theorem Bodies.step_%s : Bodies.StepAgrees \"%s\" := by" % (tn[len("BODIES_"):], desc))
+    if side is None and hyp is None:
+        D.append("  exact Bodies.step_of_agrees %s" % tn)
+    elif side is None and hyp == "NumSem":
+        D.append("  exact Bodies.step_of_sem %s" % tn)
+    elif ent[1] in SPECIAL:
+        D.append(SPECIAL[ent[1]] % {"tn": tn})
+    else:
+        sys.exit("mkbodiesprops: no rule to put the side condition of %s into Bodies.sideB" % tn)
+    D.append("")
+D.append("/-- **Every translated descriptor, in the form the dispatcher needs it.** -/")
+D.append("theorem BODIES_step_table : ∀ d ∈ Bodies.covered, Bodies.StepAgrees d := by")
+D.append("  intro d hd")
+D.append("  simp only [Bodies.covered, List.mem_cons, List.mem_nil_iff, or_false] at hd")
+D.append("  rcases hd with " + " | ".join(["rfl"] * len(SPEC)))
+for tn in names:
+    D.append("  · exact Bodies.step_%s" % tn[len("BODIES_"):])
+D.append("")
+D.append(open(os.path.join(V, "tools", "bodiesdispatch_tail.lean"), encoding="utf-8").read())
+open(OUT2, "w", encoding="utf-8").write("\n".join(D))
+print("mkbodiesprops: dispatch case analysis over %d descriptors -> %s" % (len(names), OUT2))
+DISPATCH = ["BODIES_step_table", "BODIES_resolved_wellTyped", "BODIES_refusal_agrees", "BODIES_dispatch_step", "BODIES_dispatch_hybrid",
+            "BODIES_dispatch_agrees", "BODIES_runG_agrees"]
+open(os.path.join(V, "tools", "bodies_dispatch_theorems.txt"), "w").write("\n".join("KaVerif." + n for n in DISPATCH) + "\n")
+
 # theorems of the tail that are audited with the agreement theorems (harness/pipeline.py bodies_theorems())
 EXTRA = ["BODIES_evalG_instance"]
 open(os.path.join(V, "tools", "bodies_theorems.txt"), "w").write("\n".join("KaVerif." + n for n in names + EXTRA) + "\n")
